@@ -86,6 +86,38 @@ func boundsObligations(P *Prover, fn *ssa.Function) []obligation {
 					}
 					d := P.poly(x.Y)
 					out = append(out, obligation{in: in, desc: fmt.Sprintf("%s %s %s", valName(x.X), x.Op, P.showTerm(d)), goals: []Poly{constP(1).add(d, -1)}, names: []string{"divisor >= 1"}})
+				case token.SUB:
+					// unsigned subtraction wraps below zero: the difference is then a huge number and every
+					// later step reasons about the wrong value (the prover itself reads it as X - Y)
+					if !isInt(x.Type()) || !isUnsigned(x.Type()) || isByte(x.Type()) {
+						continue
+					}
+					// judged where the difference is measured bit-wise (k = 64 - LeadingZeros64(n-1)): a
+					// wrapped difference has all 64 bits set, the pair width becomes 64 and the value
+					// accumulated from a pair overflows int
+					toBits := false
+					var uses func(v ssa.Value, d int)
+					uses = func(v ssa.Value, d int) {
+						if d > 2 || v.Referrers() == nil {
+							return
+						}
+						for _, ref := range *v.Referrers() {
+							switch y := ref.(type) {
+							case *ssa.Convert:
+								uses(y, d+1)
+							case *ssa.Call:
+								if cal := y.Call.StaticCallee(); cal != nil && cal.Pkg != nil && cal.Pkg.Pkg.Path() == "math/bits" {
+									toBits = true
+								}
+							}
+						}
+					}
+					uses(x, 0)
+					if !toBits {
+						continue
+					}
+					a, bb := P.poly(x.X), P.poly(x.Y)
+					out = append(out, obligation{in: in, desc: fmt.Sprintf("%s - %s", valName(x.X), valName(x.Y)), goals: []Poly{bb.add(a, -1)}, names: []string{"no unsigned wrap (left >= right)"}})
 				case token.SHL, token.SHR:
 					if isUnsigned(x.Y.Type()) {
 						continue
